@@ -417,10 +417,23 @@ func (w *Reconciler) syncCreateTasks(
 
 	// Create all tasks that need to be created.
 	var minEarliest time.Time
+	var checkedUpToDate bool
 	for _, request := range indexRequests {
 		minEarliest = timeutil.MinNonZero(request.Earliest, minEarliest)
 		if !request.Earliest.IsZero() && request.Earliest.After(now) {
 			continue
+		}
+
+		// Never create tasks based on an outdated Job from the cache: tasks that we
+		// created (and possibly deleted) before may not be in its status yet, and would
+		// be created a second time under the same name.
+		if !checkedUpToDate {
+			if ok, err := w.client.IsJobUpToDate(ctx, rj); err != nil {
+				return rj, tasks, errors.Wrapf(err, "cannot check if job is up to date")
+			} else if !ok {
+				return rj, tasks, fmt.Errorf("job in cache is out of date, try again")
+			}
+			checkedUpToDate = true
 		}
 		newRj, newTasks, err := w.syncCreateTask(ctx, rj, tasks, jobtasks.TaskIndex{
 			Retry:    request.RetryIndex,
